@@ -162,6 +162,21 @@ func runC10(a *args) error {
 					}
 				}
 			}
+			// read-only calls leave the routing table alone: a size query on a node that hosts some of the partitions
+			// and not others (its remote lookups fail here - no peer is reachable), then Len / BytesSize
+			for _, d := range objs {
+				ctx, cancel := context.WithTimeout(context.Background(), 300*time.Millisecond)
+				d.SizeInfo(ctx)
+				d.Len(ctx)
+				cancel()
+			}
+			for k, d := range objs {
+				for i := 0; i < pc && bad == ""; i++ {
+					if d.VerifPartitionId(i) != uuid.FromBytesOrNil(meta.Partitions[i].Id) {
+						bad = fmt.Sprintf("after a size query object %d holds partition %s at position %d, the catalogue lists %s there", k, d.VerifPartitionId(i), i, uuid.FromBytesOrNil(meta.Partitions[i].Id))
+					}
+				}
+			}
 			for k := 0; k < 200 && bad == ""; k++ {
 				id := uuidFrom(rr)
 				o0 := objs[0].VerifPartitionId(objs[0].VerifOwnerIndex(id))
